@@ -14,13 +14,14 @@
 EXTENDS NotifyMC, Json
 
 CONSTANTS MinSteps, MaxSteps,
+          GenOps,  \* step vocabulary the generated scripts may use
           Bias   \* simulation only: prefer letting time pass while a timer is armed (RandomElement)
 VARIABLES hist, nh, stopped
 gvars == <<vars, hist, nh, stopped>>
 
 Topics == Notifs \cup Uris
 Proj == [nh |-> nh, lsub |-> lsub, rsub |-> rsub, ref |-> [n \in Notifs |-> ref[n] # "nil"], now |-> now]
-H(op, a1, a2) == hist' = Append(hist, [op |-> op, a1 |-> a1, a2 |-> a2, pre |-> Proj])
+H(op, a1, a2) == op \in GenOps /\ hist' = Append(hist, [op |-> op, a1 |-> a1, a2 |-> a2, pre |-> Proj])
 Go == ~stopped /\ Len(hist) < MaxSteps
 Same == UNCHANGED <<hist, nh, stopped>>
 
